@@ -161,3 +161,20 @@ Definition spec_session_ok (b : bstr) (r : val) : bool :=
       end
   | _ => false
   end.
+
+(* all streams travel in one cases file: the literal starts with a one-letter stream tag and ":" *)
+Definition untag (b : bstr) : bstr := match b with BS l => BS (skipn 2 l) end.
+Definition tag_of (b : bstr) : N := match b with BS (c :: _) => Byte.to_N c | _ => 0 end.
+Definition run_any (b : bstr) : val :=
+  let t := tag_of b in
+  if N.eqb t 83 then run_session (untag b)          (* S *)
+  else if N.eqb t 120 then run_shlex (untag b)      (* x *)
+  else if N.eqb t 114 then run_repr (untag b)       (* r *)
+  else if N.eqb t 101 then run_enc (untag b)        (* e *)
+  else if N.eqb t 98 then run_bashrd (untag b)      (* b *)
+  else run_bashrq (untag b).                        (* q *)
+Definition spec_any_ok (b : bstr) (r : val) : bool :=
+  let t := tag_of b in
+  if N.eqb t 83 then spec_session_ok (untag b) r
+  else if N.eqb t 101 then spec_reply_ok (untag b) r
+  else true.
